@@ -83,11 +83,11 @@ def tick_leader(ctx):
     match = so.cell('raftMatchIndex').vals
     nv = so.nvoters()
     term = so.get('raftCurrentTerm')
-    ctx.prove(c1 >= c0, 'C04:R9.commit-monotone')
+    ctx.prove(c1 >= c0, 'C04+C01:R9.commit-monotone')
     ctx.prove(Implies(c1 > c0, And(c1 <= log.last_idx(),
                                    majority(count_voters(voters, [m >= c1 for m in match]), nv),
                                    log.term_at(c1) == term)), 'C04+C01:R9.majority-and-term')
-    ctx.prove(Implies(c1 != c0, Eq(log.meta_commit, c1)), 'C04:R9.persisted-commit-is-memory-commit')
+    ctx.prove(Implies(c1 != c0, Eq(log.meta_commit, c1)), 'C04+C06:R9.persisted-commit-is-memory-commit')
     # frame
     for n, b in field_unchanged(old, so, ['raftCurrentTerm', 'votedForNodeId', 'otherNodes', 'raftMatchIndex', 'raftNextIndex',
                                           'raftLastApplied', 'lastResponseTime']):
@@ -478,7 +478,7 @@ def tick_orchestration(ctx, role):
     else:
         ctx.prove(Not(want_load), 'C06+C09:O6.3.existing-dump-is-loaded-on-the-first-ready-tick')
     ctx.prove(Eq(so.get('needLoadDumpFile'), False), 'C06:O6.3.load-flag-cleared')
-    ctx.prove(names.count('applyLogEntries') == 1, 'C01:tick.committed-entries-applied-every-tick')
+    ctx.prove(names.count('applyLogEntries') == 1, 'C01+C02:tick.committed-entries-applied-every-tick')
     ctx.prove(names.count('checkCommandsToApply') == 1 and names.count('tryLogCompaction') == 1, 'C02+C09:tick.submissions-and-compaction-once-per-tick')
     sends = [e for e in ev if e[0] == 'sendAppendEntries']
     for e in sends:
